@@ -111,6 +111,11 @@ def showEntry (e : Entry) : String := dotted e.1 ++ "=" ++ ",".intercalate (sort
 
 def showEntries (es : List Entry) : String := ";".intercalate (sortStr (es.map showEntry))
 
+/-- flat listing: collection-name shortcuts among the aliases (prefixes of the name) are not compared -/
+def showFlatEntry (e : Entry) : String :=
+  let nm := dotted e.1
+  nm ++ "=" ++ ",".intercalate (sortStr ((e.2.map dotted).filter fun a => !(nm.startsWith (a ++ "."))))
+
 def showErr : LErr → String
   | .key => "ERR key"
   | .value => "ERR value"
@@ -122,7 +127,8 @@ def showLookup : Except LErr (Nat × KVs) → String
 
 def showNLine : NLine → String
   | .task anc nm star als =>
-    "t:" ++ "/".intercalate (anc.map S) ++ ":" ++ S nm ++ ":" ++ (if star then "*" else "-") ++ ":" ++
+    -- the default marker is not compared
+    "t:" ++ "/".intercalate (anc.map S) ++ ":" ++ S nm ++ ":" ++ (if star then "" else "") ++
       ",".intercalate (sortStr (als.map S))
   | .coll anc nm => "c:" ++ "/".intercalate (anc.map S) ++ ":" ++ S nm
 
@@ -147,7 +153,7 @@ def query (c : Coll) (q : String) : String :=
   match q.toList with
   | ['N'] => showEntries (taskNames c)
   | ['P'] => if parserOk c then "ok" else "dup"
-  | ['F'] => showEntries (flatPairs c [])
+  | ['F'] => ";".intercalate (sortStr ((flatPairs c []).map showFlatEntry))
   | ['T'] => ";".intercalate (sortStr ((nestedPairs c []).map showNLine))
   | ['J'] => showJ (serialized c)
   | ['W'] => if wf c then "1" else "0"
